@@ -109,7 +109,7 @@ CLAIMS.update({
 CLAIMS.update({
     "C04": dict(
         technique="Lean 4 theorems (reactor token dispatch Model: C04_single_mod, C04_commute; proved-sound graft certificate for the placeholder substitution of every observed assemble_chains call: C04_certified_assemble; table theorems by kernel evaluation) + exhaustive single modifications against a hand-written Spec fragment table (RDKit molzip)",
-        text="C04_single_mod / C04_commute are proved over the Model of the reactor (token dispatch for positioned and position-less tokens, extract_bridge, set_fg, all rounds), which reproduces the code's side_chains on every observed call; the Model of assemble_chains' string half reproduces the stored residue SMILES text-identically and C04_certified_assemble proves that it denotes the placeholder molecule with every fragment grafted at its placeholder (every other atom and stereo mark unchanged). C04_fg_fragments_wellformed, C04_tables_consistent, C04_fragments_with_other_labels are decided by the kernel over the complete regenerated "
+        text="C04_single_mod / C04_commute / C04_commute_all_shapes (tokens of any shape that write different positions commute) are proved over the Model of the reactor (token dispatch for positioned and position-less tokens, extract_bridge, set_fg, all rounds), which reproduces the code's side_chains on every observed call; the Model of assemble_chains' string half reproduces the stored residue SMILES text-identically and C04_certified_assemble proves that it denotes the placeholder molecule with every fragment grafted at its placeholder (every other atom and stereo mark unchanged). C04_fg_fragments_wellformed, C04_tables_consistent, C04_fragments_with_other_labels are decided by the kernel over the complete regenerated "
              "tables. Thorough runs every library sugar x every free position x every functional-group token (54k conversions); for ~95 tokens the expected "
              "molecule is built from a hand-written fragment table that says what the token stands for and whether the O/N carries it or is replaced; "
              "for all tokens the sugar skeleton must stay a stereo-substructure; sets of 2-4 modifications are written in all orders. C04_default_anchor_table: the Model of the reactor's ring_c (anchor of position-less groups; compared with self.ring_c on the features before check_for_anhydro) is the number of the anomeric carbon on every library row.",
